@@ -71,6 +71,12 @@ def make (spec0):
     mag = 10 ** rng.uniform (-6, 6) if rng.random () < 0.5 else rng.uniform (0.5, 2)
     ph  = rng.choice ([0, np.pi / 2, np.pi, rng.uniform (-np.pi, np.pi)])
     spec ['factor'] = [float (mag * np.cos (ph)), float (mag * np.sin (ph))]
+    # explicit tags with gaps (2, 4, 6 or 3, 6, 9 in the order of the objects) on a quarter of the structures without tapers
+    rt = np.random.default_rng ([spec0 ['seed'], 74, spec0 ['i']])
+    if rt.random () < 0.25 and not any (g.get ('taper') for g in spec ['geo']) and all (g ['k'] == 'w' for g in spec ['geo']):
+        k = int (rt.integers (2, 4))
+        for i, g in enumerate (spec ['geo']):
+            g ['tag'] = (i + 1) * k
     return gen.clean (spec)
 # end def make
 
@@ -230,6 +236,27 @@ def check (spec0):
             observe.solve (m5)
             zz = V / complex (m5.current [4])
             judge ('default-pulse', abs (complex (m5.sources [0].impedance) - zz) / abs (zz), 1e-12, 'default pulse: impedance %r != V / I = %r' % (m5.sources [0].impedance, zz))
+    # (f) the same voltages written as magnitude and phase in degrees, with a negative magnitude (and the phase
+    # turned by 180 degrees): same complex voltage, same currents, source power 1/2 Re (V I*) with its sign
+    MM = common.repo ()
+    m6 = gen.build (spec)
+    m6.sources = []
+    ok6 = True
+    for idx, v in src:
+        e = MM.Excitation (-abs (v), float (np.degrees (np.angle (v))) + 180.0)
+        if abs (complex (e.voltage) - v) > 1e-12 * abs (v):
+            viol.append (dict (monitor = 'magnitude-phase', key = 'excitation-voltage', msg = 'Excitation (%r, %r) has voltage %r, expected %r' % (-abs (v), float (np.degrees (np.angle (v))) + 180.0, e.voltage, v)))
+            ok6 = False
+        common.guarded (lambda: m6.register_source (e, idx), 'register_source')
+    if ok6 and src:
+        observe.solve (m6)
+        judge ('magnitude-phase', rel (np.array (m6.current), I0), tol, 'sources given as negative magnitude and phase: currents differ from the same complex voltages')
+        P6 = 0.0
+        for s6 in m6.sources:
+            pp = 0.5 * (complex (s6.voltage) * np.conj (complex (m6.current [s6.idx]))).real
+            P6 += pp
+            judge ('magnitude-phase.power', abs (s6.power - pp) / (0.5 * abs (s6.voltage) * abs (m6.current [s6.idx]) + 1e-300), 1e-12, 'source given as negative magnitude and phase: power %r, 1/2 Re (V I*) = %r' % (s6.power, pp))
+        judge ('magnitude-phase.power', abs (m6.power - P6) / (abs (P6) + 1e-300), 1e-9, 'input power %r, sum of the sources %r' % (m6.power, P6))
     sig = gen.signature (spec, m, extra = ['feeds' + ''.join (sorted (kinds)), 'valid%d' % ok])
     nontrivial = len (spec ['src']) > 1 or ('g' in kinds) or ('j' in kinds) or abs (c.imag) > 0
     return dict ( status = 'violation' if viol else 'held', sig = sig, nontrivial = bool (nontrivial)
